@@ -1218,4 +1218,83 @@ theorem wfRun_spec (eval : Oracle) (interp : Interp) (steps : List Step)
   · exact houts o ho
   · exact hsouts o ho
 
+/-! ## a value the forced name/kind overlay replaces (round 6: the scan at the `resource` site is needed) -/
+
+/-- the same map with the value at the (first) binding of `k` replaced by `x`; nothing is added -/
+def blankAt (k : EKey) (x : ETree) : List (EKey × ETree) → List (EKey × ETree)
+  | [] => []
+  | (k', v) :: rest => if k' = k then (k', x) :: rest else (k', v) :: blankAt k x rest
+
+theorem lookup_blankAt_ne {k k2 : EKey} (h : k2 ≠ k) (x : ETree) (res : List (EKey × ETree)) :
+    lookup k2 (blankAt k x res) = lookup k2 res := by
+  induction res with
+  | nil => rfl
+  | cons kv rest ih =>
+    obtain ⟨k', v⟩ := kv
+    by_cases hk : k' = k
+    · subst hk; simp [blankAt, lookup, Ne.symm h]
+    · simp [blankAt, lookup, hk, ih]
+
+theorem insert_blankAt_ne {k k2 : EKey} (h : k2 ≠ k) (x nv : ETree) (res : List (EKey × ETree)) :
+    insert k2 nv (blankAt k x res) = blankAt k x (insert k2 nv res) := by
+  induction res with
+  | nil => simp [blankAt, ETree.insert, h]
+  | cons kv rest ih =>
+    obtain ⟨k', v⟩ := kv
+    by_cases hk : k' = k
+    · subst hk; simp [blankAt, ETree.insert, Ne.symm h]
+    · by_cases hk2 : k' = k2
+      · subst hk2; simp [blankAt, ETree.insert, hk]
+      · simp [blankAt, ETree.insert, hk, hk2, ih]
+
+theorem insert_blankAt_same (k : EKey) (x ov : ETree) (res : List (EKey × ETree)) :
+    insert k ov (blankAt k x res) = insert k ov res := by
+  induction res with
+  | nil => rfl
+  | cons kv rest ih =>
+    obtain ⟨k', v⟩ := kv
+    by_cases hk : k' = k
+    · subst hk; simp [blankAt, ETree.insert]
+    · simp [blankAt, ETree.insert, hk, ih]
+
+def notObj : ETree → Prop
+  | .obj _ => False
+  | _ => True
+
+/-- `_deep_overlay` does not look at the resource's value under a key for which the overlay holds a non-map -/
+theorem deepOverlayO_blankAt (k : EKey) (x ov : ETree) (hov : notObj ov) :
+    ∀ (okvs res : List (EKey × ETree)), lookup k okvs = some ov →
+      deepOverlayO (blankAt k x res) okvs = deepOverlayO res okvs := by
+  intro okvs
+  induction okvs with
+  | nil => intro res h; simp [lookup] at h
+  | cons kv rest ih =>
+    intro res h
+    obtain ⟨k2, ov2⟩ := kv
+    by_cases hk : k2 = k
+    · subst hk
+      have h' : ov2 = ov := by simpa [lookup] using h
+      subst h'
+      cases ov2 with
+      | obj kvs => exact absurd hov (by simp [notObj])
+      | _ => simp [deepOverlayO, insert_blankAt_same]
+    · simp only [lookup, hk, if_false] at h
+      simp only [deepOverlayO, lookup_blankAt_ne hk, insert_blankAt_ne hk]
+      exact ih _ h
+
+
+
+theorem blankAt_hasErr {k : EKey} {e v : ETree} {kvs : List (EKey × ETree)}
+    (hl : lookup k kvs = some v) (he : HasErr e) : HasErr (.obj (blankAt k e kvs)) := by
+  have hmem : (k, e) ∈ blankAt k e kvs := by
+    induction kvs with
+    | nil => simp [lookup] at hl
+    | cons kv rest ih =>
+      obtain ⟨k', v'⟩ := kv
+      by_cases hk : k' = k
+      · subst hk; simp [blankAt]
+      · simp only [lookup, hk, if_false] at hl
+        simp [blankAt, hk, ih hl]
+  exact HasErr.value hmem he
+
 end Koreo.EvalScan
